@@ -7,7 +7,7 @@ def P(cat, **kw):
     return d
 
 C = dict(
-    prop="C04", driver="pipeline", level="model_checking", driver_parallel=6,
+    prop="C04", driver="pipeline", level="model_checking", driver_parallel=10, driver_timeout=3000,
     model_checks=[
         dict(module="PipeDrop_MC", cfg="PipeDrop_MC_2_fixed.cfg", workers=8),
         dict(module="PipeDrop_MC", cfg="PipeDrop_MC_2p_fixed.cfg", workers=8),
@@ -24,8 +24,8 @@ C = dict(
         # pause/resume on the same manager (stop, start again, partitions added again) and a second start after the drop was delivered
         dict(name="d2r", module="PipeDrop_MC", cfg="PipeDrop_Plan2r.cfg", simulate={"quick": 60}, depth=60, params=P(CAT_D2, seek_ts=7), tiers=["quick"]),
         dict(name="d2pr", module="PipeDrop_MC", cfg="PipeDrop_Plan2pr.cfg", simulate={"quick": 60}, depth=60, params=P(CAT_D2), tiers=["quick"]),
-        dict(name="d2r", module="PipeDrop_MC", cfg="PipeDrop_Plan2r.cfg", cap={"thorough": 3000}, params=P(CAT_D2, seek_ts=7), workers=8, tiers=["thorough"]),
-        dict(name="d2pr", module="PipeDrop_MC", cfg="PipeDrop_Plan2pr.cfg", cap={"thorough": 3000}, params=P(CAT_D2), workers=8, tiers=["thorough"]),
+        dict(name="d2r", module="PipeDrop_MC", cfg="PipeDrop_Plan2r.cfg", cap={"thorough": 1200}, params=P(CAT_D2, seek_ts=7), workers=8, tiers=["thorough"]),
+        dict(name="d2pr", module="PipeDrop_MC", cfg="PipeDrop_Plan2pr.cfg", cap={"thorough": 1200}, params=P(CAT_D2), workers=8, tiers=["thorough"]),
         dict(name="syn", module="PipeDrop_MC", cfg="PipeDrop_Plan2synth.cfg", cap={"quick": 50, "thorough": 500}, params=P(CAT_D2_DROPPED, seek_ts=5), workers=8),
     ],
     directed="plans/C04.jsonl",
